@@ -8,6 +8,33 @@ import (
 )
 
 func init() {
+	// perrec <argv> <records> => same | diff:<i> | err   (a verb that keeps no state from record to record:
+	// its output on a stream equals the concatenation of its outputs on each record alone)
+	ops["perrec"] = func(a []string) string {
+		argv := splitFlags(a[0])
+		rs := decodeRecords(a[1])
+		all, _, err := runVerbs(argv, rs, "f1")
+		if err != nil {
+			return "err"
+		}
+		var cat []record
+		for _, r1 := range rs {
+			one, _, err := runVerbs(argv, []record{r1}, "f1")
+			if err != nil {
+				return "err"
+			}
+			cat = append(cat, one...)
+		}
+		if encodeRecords(all) == encodeRecords(cat) {
+			return "same"
+		}
+		for i := range all {
+			if i >= len(cat) || encodeRecords([]record{all[i]}) != encodeRecords([]record{cat[i]}) {
+				return "diff:" + strconv.Itoa(i)
+			}
+		}
+		return "diff:len"
+	}
 	families["c10"] = genC10
 	// pctidx <p text> <n> => index chosen by GetPercentileNonInterpolated on the array [0, 1, ..., n-1]
 	ops["pctidx"] = func(a []string) string {
@@ -121,6 +148,28 @@ func genC10(r *rng, thorough bool) {
 			{"merge-fields", "-a", "sum,count,var", "-f", "x,y", "-o", "out"}, {"seqgen", "--start", "1", "--stop", "5", "then", "fraction", "-f", "i"},
 		} {
 			gen("verbs " + joinFlags(argv) + " " + encodeRecords(rs))
+		}
+	}
+	// merge-fields keeps nothing from one record to the next, whatever the accumulator (its accumulators are
+	// reset and re-used): every accumulator name, including those without a Lean model
+	allAccs := []string{"count", "sum", "mean", "min", "max", "mode", "antimode", "first", "last", "distinct_count", "null_count", "minlen", "maxlen",
+		"var", "stddev", "meaneb", "skewness", "kurtosis", "median", "p10", "p25.2", "p75", "iqr", "lof", "lif", "uif", "uof"}
+	for i := 0; i < n/3+10; i++ {
+		var rs []record
+		for j := 2 + r.intn(4); j > 0; j-- {
+			var rec record
+			for _, k := range []string{"a_in_x", "a_out_x", "b_in_y", "b_out_x", "a_in_z", "b_mid_x"} {
+				if !r.chance(1, 6) {
+					rec = append(rec, field{k, r.pick([]string{"1", "2", "3", "-4", "10", "2.5", "0.5", "7", "100", "0", "-1"})})
+				}
+			}
+			rs = append(rs, rec)
+		}
+		a1, a2 := r.pick(allAccs), r.pick(allAccs)
+		for _, argv := range [][]string{{"merge-fields", "-a", a1 + "," + a2, "-f", "a_in_x,a_out_x,b_in_y,b_out_x,a_in_z", "-o", "out"},
+			{"merge-fields", "-k", "-a", a1, "-f", "a_,b_", "-o", "out"}, {"merge-fields", "-a", a2 + "," + a1, "-c", "_in,_out,_mid"},
+			{"merge-fields", "-i", "-a", a1 + "," + a2, "-c", "a_,b_"}} {
+			gen("perrec " + joinFlags(argv) + " " + encodeRecords(rs))
 		}
 	}
 	gl := []string{"a", "b", "a,b", "nosuch", "b,a"}
